@@ -201,6 +201,9 @@ class Lane(LaneBase):
             g.add_node(x)
         for s, d, t in tedges:
             g.add_edge(s, d, edge_type=EdgeType(t), validate=validate)
+        if validate:
+            from harness import gen
+            gen.stress(g, ('c10', tuple(nodes), tuple(tedges)))
         return g
 
     @staticmethod
@@ -293,6 +296,49 @@ class Lane(LaneBase):
     # ---------------------------------------------------------------------------------------------------------
     # topological-order hook (handler token `topo`, owned by another helper); guarded by USE_TOPO
     # ---------------------------------------------------------------------------------------------------------
+
+    @staticmethod
+    def nodeform_check(g, nodes):
+        """every query must give the same answer whether a node is named by its identifier, by the graph's own Node,
+        by a fresh equal Node or by the Node of a copy of the graph (checked on one pair per graph)"""
+        from harness import gen
+        import hashlib
+        h = int(hashlib.sha1(repr(nodes).encode()).hexdigest(), 16)
+        a = nodes[h % len(nodes)]
+        b = nodes[(h // 5) % len(nodes)]
+        fails = []
+
+        def canon(x):
+            if isinstance(x, (set, list)):
+                return sorted(getattr(e, 'identifier', e) if not isinstance(e, list) else tuple(e) for e in x)
+            if hasattr(x, 'get_node_names'):
+                return (sorted(x.get_node_names()), sorted((e.source.identifier, e.destination.identifier) for e in x.get_edges()))
+            return x
+        fns = [('get_ancestors', lambda x, y: g.get_ancestors(x)), ('get_descendants', lambda x, y: g.get_descendants(x)),
+               ('is_ancestor', lambda x, y: g.is_ancestor(x, y)), ('is_descendant', lambda x, y: g.is_descendant(x, y)),
+               ('get_nodes_between', lambda x, y: g.get_nodes_between(x, y)),
+               ('get_all_causal_paths', lambda x, y: g.get_all_causal_paths(x, y)),
+               ('directed_path_exists', lambda x, y: g.directed_path_exists(x, y)),
+               ('get_ancestral_graph', lambda x, y: g.get_ancestral_graph(x)),
+               ('get_children_graph', lambda x, y: g.get_children_graph(x)),
+               ('get_common_ancestors', lambda x, y: g.get_common_ancestors(x, y))]
+        fa, fb = gen.node_forms(g, a), dict(gen.node_forms(g, b))
+        for label, f in fns:
+            try:
+                base = canon(f(a, b))
+            except Exception as e:  # noqa: BLE001
+                base = '!' + type(e).__name__
+            for form, xa in fa[1:]:
+                xb = fb.get(form, b)
+                try:
+                    got = canon(f(xa, xb))
+                except Exception as e:  # noqa: BLE001
+                    got = '!' + type(e).__name__
+                if got != base:
+                    fails.append(f'{label}: naming the nodes by {form} Node objects gives {got!r}, by identifier {base!r} '
+                                 f'(nodes {a!r}, {b!r})')
+                    break
+        return fails[:2]
 
     def topo_lines(self, g, nodes, edges):
         """Lines for `get_topological_order` (single and all).  `nodes`: identifiers in construction order,
@@ -432,6 +478,8 @@ class Lane(LaneBase):
             oracle = self.oracle(g, recs, fam)
         if fam == 'relab' and 'twin' in case:
             oracle += self.twin_check(case, recs)
+        if fam in ('dag', 'relab') and len(nodes) >= 2:
+            oracle += self.nodeform_check(g, nodes)
         if self.USE_TOPO and fam in ('dag', 'relab'):
             self._topo_fail = None
             tl, ti = self.topo_lines(g, nodes, directed)
